@@ -25,8 +25,8 @@ LEVELS = ('server', 'rack', 'pod', 'cell')
 DAY = 86400.0
 
 
-def _vec(rng, lo, hi):
-    return [float(rng.randint(lo, hi)) for _ in range(3)]
+def _vec(rng, lo, hi, scale=1):
+    return [float(rng.randint(lo, hi) * scale) for _ in range(3)]
 
 
 class Truth:
@@ -133,7 +133,8 @@ class World:
         self.faults = {'srv_down': 0, 'srv_up': 0, 'srv_frozen': 0,
                        'srv_removed': 0, 'srv_resized': 0,
                        'clock_jump': 0, 'group_shrunk': 0,
-                       'group_removed': 0, 'blacklist': 0}
+                       'group_removed': 0, 'blacklist': 0,
+                       'reboot_rescheduled': 0}
         self.nontrivial = 0
         self.step = 0
         self.renewing = False
@@ -257,6 +258,21 @@ class World:
                             'label': op['label'], 'traits': op['traits'],
                             'up_ago': op['up_ago']})
         self.faults['srv_resized'] += 1
+
+    def op_revalidate(self, op):
+        """What Loader.set_server_valid_until does when a server comes up:
+        the server is (re)assigned to a reboot bucket of its partition, by
+        the timestamp found in its presence record if there is one.  The
+        server's valid_until may move to an earlier date than the expiry of
+        leases already running on it."""
+        srv = self.servers.get(op['name'])
+        if srv is None:
+            return
+        before = srv.valid_until
+        for label in srv.labels:
+            self.cell.partitions[label].add(srv, op['ts'])
+        if srv.valid_until != before:
+            self.faults['reboot_rescheduled'] += 1
 
     def op_reload_cell(self, op):
         """What Loader.load_cell does on a 'cell' event: the top level
@@ -674,6 +690,7 @@ OP_WEIGHTS = [
     ('blacklist', 3), ('renew', 2), ('unschedule', 2), ('advance', 8),
     ('tick', 1), ('cycle', 26), ('probe', 0), ('reload_cell', 2),
     ('add_pod', 1), ('lease_squeeze', 2), ('stale_mark', 2),
+    ('revalidate', 1), ('reboot_forward', 2),
 ]
 
 
@@ -716,10 +733,24 @@ class Generator:
         if name is None:
             name = 'a%d' % self.napps
         aff = rng.choice(cfg['aff_names'])
-        demand = _vec(rng, cfg['dem_lo'], cfg['dem_hi'])
+        scale = cfg.get('scale', 1)
+        demand = _vec(rng, cfg['dem_lo'], cfg['dem_hi'], scale)
         if rng.random() < 0.15:
-            demand[rng.randrange(3)] = float(rng.randint(cfg['dem_hi'],
-                                                         cfg['dem_hi'] * 3))
+            demand[rng.randrange(3)] = float(
+                rng.randint(cfg['dem_hi'], cfg['dem_hi'] * 3) * scale)
+        if rng.random() < cfg.get('p_tight', 0.0):
+            # a demand at the very edge of what some up server has left: it
+            # fits exactly, or misses by one or two units in one dimension
+            ups = sorted(n for n, srv in world.servers.items()
+                         if srv.state is scheduler.State.up)
+            if ups:
+                free = [float(x) for x in
+                        world.servers[rng.choice(ups)].free_capacity]
+                dim = rng.randrange(3)
+                if free[dim] > 0:
+                    demand = [float(rng.randint(0, int(max(0.0, f))))
+                              for f in free]
+                    demand[dim] = free[dim] + rng.choice([0, 1, 1, 2])
         lease = 0
         if cfg['leases'] and rng.random() < 0.35:
             lease = float(rng.choice([3600, DAY * 0.5, DAY, DAY * 2,
@@ -764,6 +795,60 @@ class Generator:
         if not names:
             return None
         return self.rng.choice(names)
+
+    def _reboot_slots(self, world, srv):
+        out = set()
+        for label in srv.labels:
+            part = world.cell.partitions.get(label)
+            if part is not None:
+                # (reading the partition's reboot calendar)
+                out.update(b.timestamp for b in part._reboot_buckets)
+        return sorted(out)
+
+    def g_revalidate(self, world):
+        name = self._some_srv(world)
+        if not name:
+            return None
+        slots = self._reboot_slots(world, world.servers[name])
+        ts = self.rng.choice(slots + [None]) if slots else None
+        return {'op': 'revalidate', 'name': name, 'ts': ts}
+
+    def g_reboot_forward(self, world):
+        """The reboot of a server is brought forward to a date before the
+        expiry of a lease running on it; then an instance that fits nowhere
+        arrives ahead of the leased one: everything behind it is evicted for
+        it in vain and has to be put back - the leased instance included,
+        whatever its server's new reboot date."""
+        rng = self.rng
+        now = world.clock.peek()
+        cands = []
+        for name in sorted(world.cell.apps):
+            app = world.cell.apps[name]
+            srv = world.servers.get(app.server) if app.server else None
+            if not app.lease or srv is None or app.priority >= 100 or \
+                    app.priority == 0 or \
+                    srv.state is not scheduler.State.up:
+                continue
+            slots = [t for t in self._reboot_slots(world, srv)
+                     if now + 60.0 < t < app.placement_expiry]
+            if slots:
+                cands.append((name, srv.name, slots))
+        if not cands:
+            return None
+        name, sname, slots = rng.choice(cands)
+        spec = dict(world.truth.apps[name])
+        caps = [world.truth.srv[s]['cap'] for s in sorted(world.truth.srv)]
+        giant = [2.0 * max(c[d] for c in caps) + 1.0 for d in range(3)]
+        self.napps += 1
+        gname = 'a%d' % self.napps
+        self.follow.extend([
+            {'op': 'add_app', 'name': gname, 'prio': 100, 'demand': giant,
+             'aff': spec['aff'], 'drt': 0, 'lease': 0, 'group': None,
+             'traits': 0, 'once': False, 'alloc': list(spec['alloc'])},
+            {'op': 'cycle'},
+            {'op': 'remove_app', 'name': gname},
+            {'op': 'cycle'}])
+        return {'op': 'revalidate', 'name': sname, 'ts': rng.choice(slots)}
 
     def g_stale_mark(self, world):
         """An instance is marked for unscheduling on a server that is frozen
@@ -864,7 +949,8 @@ class Generator:
             if rng.random() < 0.4:
                 traits |= bit
         return {'name': name, 'rack': rack,
-                'cap': _vec(rng, cfg['cap_lo'], cfg['cap_hi']),
+                'cap': _vec(rng, cfg['cap_lo'], cfg['cap_hi'],
+                            cfg.get('scale', 1)),
                 'label': rng.choice(cfg['partitions']),
                 'traits': traits,
                 'up_ago': float(rng.choice([0, 3600, DAY, DAY * 5, DAY * 19]))}
@@ -992,7 +1078,7 @@ class Generator:
 def _alloc_spec(rng, cfg, path):
     reserved = [0.0, 0.0, 0.0]
     if rng.random() < 0.7:
-        reserved = _vec(rng, 0, cfg['cap_hi'])
+        reserved = _vec(rng, 0, cfg['cap_hi'], cfg.get('scale', 1))
     maxu = None
     if cfg['caps'] and rng.random() < 0.35:
         maxu = rng.choice([0.5, 1.0, 1.5, 2.0, 4.0])
@@ -1030,6 +1116,10 @@ def make_config(prop, tier, rng):
         'caps': rng.random() < 0.5,
         'adjust': rng.random() < 0.6,
         'n_ops': rng.randint(15, 120 if big else 70),
+        # magnitude of the quantities (units per step of the generator) and
+        # how often a demand is cut to the edge of a server's free capacity
+        'scale': rng.choice([1, 1, 1, 1000, 131072, 1048576]),
+        'p_tight': rng.choice([0.0, 0.05, 0.15]),
     }
     # allocations: a small tree per partition
     allocs = []
@@ -1053,7 +1143,7 @@ def make_config(prop, tier, rng):
         if rng.random() < 0.75:
             for lv in levels_on:
                 if rng.random() < 0.7:
-                    limits[lv] = rng.randint(1, 4)
+                    limits[lv] = rng.choice([0, 1, 1, 2, 2, 3, 4])
         affinities.append([aff, limits])
     cfg['affinities'] = affinities
     ngroups = rng.choice([0, 1, 2]) if prop != 'C05' else rng.choice([1, 2, 3])
@@ -1073,7 +1163,8 @@ def make_config(prop, tier, rng):
                         traits |= bit
                 servers.append({
                     'name': 's%d' % n, 'rack': 'rack:p%dr%d' % (pi, ri),
-                    'cap': _vec(rng, cfg['cap_lo'], cfg['cap_hi']),
+                    'cap': _vec(rng, cfg['cap_lo'], cfg['cap_hi'],
+                                cfg['scale']),
                     'label': rng.choice(partitions), 'traits': traits,
                     'up_ago': float(rng.choice([0, 3600, DAY, DAY * 5,
                                                 DAY * 19]))})
